@@ -28,6 +28,8 @@ CODE = ["x = 1", "call f(a)", "b", "print *,", "if (p) q = r"]
 LITS = [
     "'s'", "''", '""', "'it''s'", '"q""q"', "'a!b'", '"a!!b"', "'a;b'", "'a&b'", "'&'",
     "'a\"b'", "\"a'b\"", "'end program'", "' ! x'", "''''", "'a  b'",
+    # runs of semicolons, and characters that str.splitlines() (but not line-wise reading of a file) treats as line ends
+    "';;'", '"a; ;b"', "'he\x0cad'", '"u\u2028v"', "'n\x85l'", "'v\x0bt\x1cf'",
 ]
 # literals continued across lines in the standard form (& at the end, & at the start); logical
 # value is the concatenation
@@ -70,6 +72,8 @@ END = [
     ("nl_com_tricky", " ! old: !! was doc ; 'q & \n", [], []),
     ("nl_comline_tricky", "\n ! don't !> p ; \"\n", [], []),
     ("nl_doc_tricky", " !! d \"q ! z ; it's &\n", ["!! d \"q ! z ; it's &"], []),
+    ("nl_doc_formfeed", " !! d\x0cf g\u2028h\n", ["!! d\x0cf g\u2028h"], []),
+    ("nl_com_linesep", " ! c\u2028 zz = 9 \x0c yy = 8\n", [], []),
 ]
 FINAL = [("", []), (" ! c fin", []), (" !! d fin", ["!! d fin"]), ("\n", []), ("\n\n! c\n", [])]
 
